@@ -267,3 +267,33 @@ func fileContains(path string, marker []byte) bool {
 	}
 	return bytes.Contains(b, marker)
 }
+
+// diffKeys returns the collections whose content differs between the model
+// and a dump (and whether hooks differ).
+func diffKeys(m *Model, d *Dump) (keys []string, hooksDiffer bool) {
+	seen := map[string]bool{}
+	for k := range m.cols {
+		seen[k] = true
+	}
+	for k := range d.cols {
+		seen[k] = true
+	}
+	for k := range seen {
+		sub := &Model{cols: map[string]map[string]*mObj{}, hooks: map[string]*mHook{}}
+		if c := m.cols[k]; c != nil {
+			sub.cols[k] = c
+		}
+		dd := &Dump{cols: map[string]map[string]*dObj{}, hooks: map[string]*dHook{}}
+		if c := d.cols[k]; c != nil {
+			dd.cols[k] = c
+		}
+		if compareDump(sub, dd, false) != nil {
+			keys = append(keys, k)
+		}
+	}
+	sort.Strings(keys)
+	hm := &Model{cols: map[string]map[string]*mObj{}, hooks: m.hooks}
+	hd := &Dump{cols: map[string]map[string]*dObj{}, hooks: d.hooks}
+	hooksDiffer = compareDump(hm, hd, true) != nil
+	return
+}
